@@ -198,6 +198,10 @@ def run_driver_case(acc, kind, oset, ns, nc, bi, stp, init, ow, flagged, reuse=N
     if any(tuple(c["out"].shape) != (chains, 2) for c in calls):
         flag(f"stats:driver:number-of-chains:{q}", [list(c["out"].shape) for c in calls], [chains, 2])
         return
+    for i, c_ in enumerate(calls):
+        if c_["k"] == 0 and c_["inp"] is not None and not torch.equal(c_["out"].to(torch.double), c_["inp"].to(torch.double)):
+            flag(f"stats:driver:zero-step-draw-moved-the-chains:{q}", c_["out"], c_["inp"])
+            return
     for i in range(1, len(calls)):
         if calls[i]["inp"] is None or not torch.equal(calls[i]["inp"], calls[i - 1]["out"]):
             flag(f"stats:driver:chains-not-continued:{q}", None, None)
